@@ -69,7 +69,11 @@ func c14Oracle(p *Plan) *Verdict {
 			}
 			o := st.Outcome
 			if o.sawSuccess() {
-				v.violate("duplex-fault-became-success", f, "the request side failed (%s) while the response side was active, yet the client saw success", p.RPCs[i].histKind())
+				body, clean, _ := effectiveRequestBody(&p.Config, &p.RPCs[i])
+				_, md := planMethod(p, i)
+				rs := refParseStream(enveloped(p.RPCs[i].Client.Form), requestFlag, p.RPCs[i].Client.Codec, p.RPCs[i].Client.Compression, body, clean, md.Input())
+				v.violate("duplex-fault-became-success", f, "RPC %d: the request stream is malformed (%s) and the response side was active, yet the client saw success: %s; backend: undecodable=%v readerr=%q msgs=%d",
+					i, rs.Malformed, outcomeBrief(o), st.backend().Undecodable, st.backend().ReadErr, len(st.backend().Msgs))
 			}
 			if len(o.Problems) > 0 || o.Kind == "invalid" {
 				// one defect, many symptoms: the fingerprint names the situation, the detail lists the symptoms
